@@ -1049,6 +1049,11 @@ impl Hyb {
                             self.ctl.holder.unhold()
                         }
                     }
+                    // wait for the flushers without a checkpoint (ends the current flush batch)
+                    14 => {
+                        self.unhold_flush();
+                        cache.storage().wait().await;
+                    }
                     // hold / release flushing: while held, everything handed to the disk tier stays in its write queue
                     13 => {
                         if *arg != 0 {
